@@ -251,6 +251,9 @@ func (x *X) typeFacts(t *Term, lf Leaf) {
 		return
 	}
 	x.typed[t.id] = true
+	if x.B.hasBoundVar(t) {
+		return
+	}
 	B := x.B
 	switch lf.Role {
 	case "len", "off":
@@ -298,6 +301,9 @@ func (x *X) valueFacts(v Value) {
 func (x *X) sliceFacts(v Value) {
 	B := x.B
 	ln, cp, off := v.L[2], v.L[3], v.L[1]
+	if B.hasBoundVar(ln) || B.hasBoundVar(cp) || B.hasBoundVar(off) {
+		return
+	}
 	key := -(ln.id*1000003 + cp.id)
 	if x.typed[key] {
 		return
@@ -312,6 +318,9 @@ func (x *X) strLen(t *Term) *Term {
 }
 
 func (x *X) strLenFacts(t *Term) {
+	if x.B.hasBoundVar(t) {
+		return
+	}
 	l := x.strLen(t)
 	if x.typed[l.id] {
 		return
@@ -333,6 +342,9 @@ func (x *X) strLit(s string) *Term {
 			x.assumeGlobal(x.B.Neq(t, ot), "distinct string literals")
 		}
 	}
+	for _, sp := range x.W.Specs.StrPreds {
+		x.assumeGlobal(x.B.Eq(x.strPredApp(sp, t), x.B.Bool(sp.Eval(s))), "string predicate on literal")
+	}
 	// byte contents for short literals
 	if len(s) <= 16 {
 		for i := 0; i < len(s); i++ {
@@ -342,10 +354,15 @@ func (x *X) strLit(s string) *Term {
 	return t
 }
 
+func (x *X) strPredApp(sp *StrPred, t *Term) *Term {
+	d := x.B.DeclFunc("strpred$"+sp.Name, []*Sort{StrSort}, BoolSort)
+	return x.B.App(d, t)
+}
+
 func (x *X) strAt(s, i *Term) *Term {
 	d := x.B.DeclFunc("strat", []*Sort{StrSort, IntSort}, IntSort)
 	t := x.B.App(d, s, i)
-	if !x.typed[t.id] {
+	if !x.typed[t.id] && !x.B.hasBoundVar(t) {
 		x.typed[t.id] = true
 		x.assumeGlobal(x.B.And(x.B.Le(x.B.Int(0), t), x.B.Le(t, x.B.Int(255))), "byte range")
 	}
@@ -416,6 +433,9 @@ func (x *X) zeroArrayAxioms() []*Term {
 	i := B.BoundVar("zi", IntSort)
 	if _, ok := B.consts["zeroarr_int"]; ok {
 		out = append(out, B.Forall([]*Term{i}, B.Eq(B.Select(B.Const("zeroarr_int", ArraySort(IntSort, IntSort)), i), B.Int(0))))
+	}
+	if _, ok := B.consts["zeroarr_str"]; ok {
+		out = append(out, B.Forall([]*Term{i}, B.Eq(B.Select(B.Const("zeroarr_str", ArraySort(IntSort, StrSort)), i), x.strLit(""))))
 	}
 	if _, ok := B.consts["zeroarr_bool"]; ok {
 		out = append(out, B.Forall([]*Term{i}, B.Not(B.Select(B.Const("zeroarr_bool", ArraySort(IntSort, BoolSort)), i))))
@@ -559,7 +579,9 @@ func (x *X) load(s *State, l *Loc, t types.Type) Value {
 	if l.Kind == LCell {
 		v, ok := s.cells[l.Cell]
 		if !ok {
-			panic(fmt.Sprintf("load from unknown cell %d", l.Cell))
+			// the cell was allocated on a path that cannot lead here
+			// (e.g. a deferred closure registered on another branch)
+			return x.freshValue(t, "deadcell")
 		}
 		if l.Path != "" {
 			panic("cell with path")
@@ -570,9 +592,62 @@ func (x *X) load(s *State, l *Loc, t types.Type) Value {
 	v := Value{T: t, L: make([]*Term, len(lay.Leaves))}
 	for i, lf := range lay.Leaves {
 		v.L[i] = x.loadLeaf(s, l, lf)
+		if len(x.W.Specs.FieldInv) > 0 {
+			if owner := ownerOf(l, lf); owner != "" {
+				if inv, ok := x.W.Specs.FieldInv[owner]; ok && !x.typed[-7*v.L[i].id-3] && !x.B.hasBoundVar(v.L[i]) {
+					x.typed[-7*v.L[i].id-3] = true
+					x.assumeGlobal(x.evalFieldInv(inv, v.L[i]), "field invariant "+owner)
+				}
+			}
+		}
 	}
 	x.valueFacts(v)
 	return v
+}
+
+func (x *X) evalFieldInv(inv *Axiom, v *Term) *Term {
+	env := &Env{x: x, vars: map[string]SV{"v": svTerm(v)}}
+	var t *Term
+	if err := safeEval(func() { t = env.Bool(inv.Expr) }); err != nil {
+		panic(stopExec{"fieldinv " + inv.Name + ": " + err.Error()})
+	}
+	return t
+}
+
+// ownerOf finds "pkg.Type.field" for a scalar leaf stored at l.
+func ownerOf(l *Loc, lf Leaf) string {
+	if lf.Owner != "" {
+		return lf.Owner
+	}
+	if l.T == nil || (l.Kind != LObj && l.Kind != LElem && l.Kind != LGlobal) {
+		return ""
+	}
+	if _, ok := l.T.Underlying().(*types.Struct); !ok {
+		return ""
+	}
+	full := l.Path + lf.Path
+	for _, rl := range LayoutOf(l.T).Leaves {
+		if rl.Path == full {
+			return rl.Owner
+		}
+	}
+	return ""
+}
+
+// fieldInvObligations: a store of value v at l must keep field invariants.
+func (x *X) fieldInvObligations(l *Loc, v Value, pc *Term, pos string) {
+	if len(x.W.Specs.FieldInv) == 0 || !(x.mode.Sweep || x.mode.Functional) {
+		return
+	}
+	for i, lf := range LayoutOf(v.T).Leaves {
+		owner := ownerOf(l, lf)
+		if owner == "" {
+			continue
+		}
+		if inv, ok := x.W.Specs.FieldInv[owner]; ok {
+			x.oblige("fieldinv", owner, pos, pc, x.evalFieldInv(inv, v.L[i]))
+		}
+	}
 }
 
 func (x *X) store(s *State, l *Loc, v Value) {
